@@ -38,6 +38,7 @@ import (
 	"oras.land/oras-go/v2/errdef"
 	"oras.land/oras-go/v2/registry"
 	"oras.land/oras-go/v2/registry/remote"
+	"golang.org/x/sync/semaphore"
 	"verifharness/common"
 	"verifharness/dag"
 )
@@ -84,6 +85,11 @@ type Case struct {
 	Enum     bool          `json:"enum"`     // schedule enumeration: choices beyond Script are 0, not PRNG
 	Sched    bool          `json:"sched"`    // run under testing/synctest with a PRNG-controlled scheduler
 	Thorough bool          `json:"thorough"` // generated with the thorough-tier size distribution
+	OneP     bool          `json:"onep"`     // run the call with GOMAXPROCS(1): a spawned goroutine starts only when its spawner blocks or yields,
+	// which opens the windows between eg.Go and the goroutine's first instruction (cancellation landing in between)
+	Barrier  bool          `json:"barrier"`  // FindSuccessors (set) lines up the tasks that are inside it (a cyclic barrier of min(K,8) with a 2 ms
+	// timeout): their first successors are then dispatched, and claimed with TryCommit, at the same instant
+	OwnLim   bool          `json:"ownlim"`   // CopyGraph through the verif hook with a limiter the harness created: its free permits are read at every event
 }
 
 var errInjected = errors.New("verif: injected callback failure")
@@ -119,6 +125,13 @@ type rec struct {
 	seed   uint64
 	always bool // every Mount finds the blob in the candidate repository
 	sched  *sched   // controlled schedules: every delay point parks until the scheduler releases it
+	// the copy's own limiter (Case.OwnLim): at every recorded event the free permits are counted; the operations
+	// in flight must be covered by the permits taken
+	lim      *semaphore.Weighted
+	limK     int
+	limProbe int    // events probed
+	limBad   string // first event at which more operations were in flight than permits taken
+	onep     bool   // Case.OneP
 }
 
 func (r *rec) node(d ocispec.Descriptor) int {
@@ -145,7 +158,27 @@ func (r *rec) ev(tok string, dsrc, ddst int) {
 	if r.dstIn > r.dstMax {
 		r.dstMax = r.dstIn
 	}
+	if r.lim != nil {
+		// still inside r.mu: no other task can record an event, and a task between two of its events keeps its permit
+		free := r.freePermits()
+		r.limProbe++
+		if taken := r.limK - free; r.limBad == "" && (r.srcIn > taken || r.dstIn > taken) {
+			r.limBad = fmt.Sprintf("at event %d (%s): %d source reads and %d destination operations in flight, but only %d of %d permits taken", len(r.toks)-1, tok, r.srcIn, r.dstIn, taken, r.limK)
+		}
+	}
 	r.mu.Unlock()
+}
+
+// freePermits counts the limiter's free permits (takes them all for an instant and gives them back).
+func (r *rec) freePermits() int {
+	f := 0
+	for f <= r.limK && r.lim.TryAcquire(1) {
+		f++
+	}
+	if f > 0 {
+		r.lim.Release(int64(f))
+	}
+	return f
 }
 
 // cancelAfterResolve ends the caller's context when the source reference has just been resolved.
@@ -180,6 +213,13 @@ func (r *rec) delay() {
 	v := r.lat.Intn(12)
 	a := r.lat.Intn(64)
 	r.lmu.Unlock()
+	if r.onep {
+		// single-P schedules: mostly run on without yielding (a yield lets every spawned goroutine start)
+		if v >= 9 {
+			runtime.Gosched()
+		}
+		return
+	}
 	if r.fast && v >= 8 {
 		v = 4
 	}
@@ -490,6 +530,31 @@ func (d dstWRef) PushReference(ctx context.Context, t ocispec.Descriptor, rd io.
 	return d.push(ctx, t, rd, ref)
 }
 
+// barrier is a cyclic barrier with a timeout (a straggler releases nobody and waits at most 2 ms).
+type barrier struct {
+	mu   sync.Mutex
+	n    int
+	size int
+	ch   chan struct{}
+}
+
+func (b *barrier) wait() {
+	b.mu.Lock()
+	b.n++
+	if b.n >= b.size {
+		close(b.ch)
+		b.ch, b.n = make(chan struct{}), 0
+		b.mu.Unlock()
+		return
+	}
+	ch := b.ch
+	b.mu.Unlock()
+	select {
+	case <-ch:
+	case <-time.After(2 * time.Millisecond):
+	}
+}
+
 // ---- running one case ----
 
 // Result is everything observed about one run.
@@ -512,6 +577,9 @@ type Result struct {
 	Keff     int
 	Root2    int // the root after MapRoot / platform selection (ground truth), -1 if the prologue must fail
 	SetupErr error
+	LimProbes int    // Case.OwnLim: events at which the limiter was read
+	LimBad    string // first event with more operations in flight than permits taken
+	LimFree   int    // free permits after the call returned (must be all of them)
 }
 
 // CbIsSet reports whether callback kind (pre post skip mounted mountfrom) is set in this case.
@@ -727,7 +795,7 @@ func Execute(c *Case) *Result {
 			return nil
 		}
 	}
-	r := &rec{idx: map[dkeyT]int{}, lat: common.NewRand(c.Seed), cancelAt: c.CancelAt, fast: c.Fast, slow: c.Slow, seed: c.Seed, always: c.MountAlways}
+	r := &rec{idx: map[dkeyT]int{}, lat: common.NewRand(c.Seed), cancelAt: c.CancelAt, fast: c.Fast, slow: c.Slow, seed: c.Seed, always: c.MountAlways, onep: c.OneP}
 	for _, n := range g.Nodes {
 		if _, dup := r.idx[keyOf(n.Desc)]; dup {
 			res.SetupErr = fmt.Errorf("generator produced two nodes with the same descriptor (node %d)", n.ID)
@@ -785,8 +853,16 @@ func Execute(c *Case) *Result {
 		}
 	}
 	if c.FindSucc {
+		var bar *barrier
+		if c.Barrier && !c.Sched {
+			bar = &barrier{size: min(res.Keff, 8), ch: make(chan struct{})}
+		}
 		gopts.FindSuccessors = func(ctx context.Context, f content.Fetcher, d ocispec.Descriptor) ([]ocispec.Descriptor, error) {
-			return content.Successors(ctx, f, d)
+			ss, err := content.Successors(ctx, f, d)
+			if bar != nil && err == nil && len(ss) > 0 {
+				bar.wait()
+			}
+			return ss, err
 		}
 	}
 
@@ -819,6 +895,14 @@ func Execute(c *Case) *Result {
 			var d content.Storage = dw
 			if c.Mount {
 				d = dstWMount{dw}
+			}
+			if c.OwnLim {
+				// same call as CopyGraph makes, with a limiter of the size CopyGraph would create
+				r.mu.Lock()
+				r.lim, r.limK = semaphore.NewWeighted(int64(res.Keff)), res.Keff
+				r.mu.Unlock()
+				res.Err = oras.VerifCopyGraphWithLimiter(callCtx, sw, d, g.Nodes[c.Root].Desc, r.lim, gopts)
+				break
 			}
 			res.Err = oras.CopyGraph(callCtx, sw, d, g.Nodes[c.Root].Desc, gopts)
 		default:
@@ -869,6 +953,9 @@ func Execute(c *Case) *Result {
 			return res
 		}
 	} else {
+		if c.OneP {
+			defer runtime.GOMAXPROCS(runtime.GOMAXPROCS(1))
+		}
 		done := make(chan struct{})
 		go func() {
 			defer close(done)
@@ -888,6 +975,9 @@ func Execute(c *Case) *Result {
 		r.ev("RT.1", 0, 0)
 	} else {
 		r.ev("RT.0", 0, 0)
+	}
+	if r.lim != nil {
+		res.LimProbes, res.LimBad, res.LimFree = r.limProbe, r.limBad, r.freePermits()
 	}
 	res.Toks = r.toks
 	res.Pro = r.pro
